@@ -105,6 +105,13 @@ func c12Bases() []c12Base {
 			return &gen.Program{Vars: []*gen.VarDecl{decl("monetary", "amt")},
 				Stmts: []gen.Stmt{&gen.Save{Sent: &gen.SentLit{E: v("amt")}, Acct: gen.Acct("world")}, sendN(U, "1", sa("a"), da("x"))}}
 		}, nil, map[string]string{"amt": "USD 2"}},
+		{"ordered-caps", func() *gen.Program {
+			// the first member covers the amount: the later ones give nothing but are still evaluated
+			return &gen.Program{Stmts: []gen.Stmt{sendN(U, "6",
+				lst(sa("a"), &gen.SrcCapped{Cap: gen.Mon(U, "4"), From: sa("b")}, &gen.SrcOverdraft{Addr: gen.Acct("b"), Bounded: gen.Mon(U, "3")},
+					&gen.SrcAllot{Items: []*gen.SrcAllotItem{{A: gen.Port("1/2"), From: sa("b")}, {A: &gen.Remaining{}, From: sa("a")}}}),
+				da("x"))}}
+		}, nil, map[string]string{}},
 		{"infix-mon", func() *gen.Program {
 			return &gen.Program{Vars: []*gen.VarDecl{decl("monetary", "amt")},
 				Stmts: []gen.Stmt{&gen.Send{Sent: &gen.SentLit{E: &gen.Infix{Op: "+", L: v("amt"), R: gen.Mon(U, "2")}},
@@ -244,7 +251,7 @@ func runC12(w *mc.Worker) {
 		a, b *big.Int
 	}{{"rich", bi(10), bi(10)}, {"poor", bi(0), bi(0)}, {"negative", bi(-3), bi(10)}, {"huge", H, H}}
 	name := fmt.Sprintf("dev%d", total)
-	w.Stage(name, fmt.Sprintf("10 base scripts, at most %d deviation(s) in total (expression/allotment/declaration/call edits, variable values, sheets, metadata), every store call failed in turn", total), func() {
+	w.Stage(name, fmt.Sprintf("11 base scripts, at most %d deviation(s) in total (expression/allotment/declaration/call edits, variable values, sheets, metadata), every store call failed in turn", total), func() {
 		w.Outer(name+"/c12", total, func(o *mc.Explorer) {
 			b := bases[o.Choose(len(bases))]
 			prog := b.Mk()
